@@ -144,7 +144,7 @@ func NewWorld(g *GenSpec) (*World, error) {
 	return &World{Gen: g, Chain: c, Model: NewModel(g)}, nil
 }
 
-func (w *World) applyLedgerOp(lo *LedgerOp) {
+func (w *World) ApplyLedgerOp(lo *LedgerOp) {
 	s := w.Chain.LedgerStore()
 	l := w.Chain.Ledger
 	var addr []byte
@@ -199,7 +199,7 @@ func (w *World) ExecBlock(ops []*Op) []*Step {
 		switch op.Kind {
 		case "ledger":
 			// applied before the block's transactions
-			w.applyLedgerOp(op.Ledger)
+			w.ApplyLedgerOp(op.Ledger)
 		case "tx":
 			if err := op.Resolve(); err != nil {
 				panic(err)
